@@ -514,7 +514,27 @@ let handle_merge c =
   end else begin
     spec_ok c (prop ^ ".failure") (impl_end = "err merge") ("failing merge function surfaced as " ^ impl_end);
     spec_ok c (prop ^ ".wfailure") (get c "wfile" = ["err"; "merge"]) ("write_into_stream_writer with failing merge function: " ^ String.concat " " (get c "wfile"))
-  end
+  end;
+  (* a caller that goes on after the error: whatever sources the iterator still reads, every further call of
+     the merge function carries values stored under THAT key, in source order, and the keys keep ascending;
+     no panic *)
+  (match get_all c "aend" with
+   | [["panic"]] -> spec_ok c (prop ^ ".after_error") false "the iterator panicked when used after the error"
+   | _ -> ());
+  let rec subseq a b = match a, b with
+    | [], _ -> true
+    | _, [] -> false
+    | x :: a', y :: b' -> if x = y then subseq a' b' else subseq a b' in
+  List.iter (fun t -> match t with
+    | [k; vs] ->
+      let k = bytes_of_hex k and vs = List.map bytes_of_hex (String.split_on_char ',' vs) in
+      spec_ok c (prop ^ ".after_error.call") (vs <> [] && subseq vs (vals_of k))
+        ("after the error the merge function received for key " ^ hex_of_bytes k ^ " values that are not stored under it (in source order): "
+         ^ String.concat "," (List.map hex_of_bytes vs))
+    | _ -> failwith "acall") (get_all c "acall");
+  let akeys = List.map (fun t -> match t with [k; _] -> bytes_of_hex k | _ -> failwith "aout") (get_all c "aout") in
+  spec_ok c (prop ^ ".after_error.sorted") (sorted_strictb akeys) "keys yielded after the error are not strictly ascending";
+  List.iter (fun k -> spec_ok c (prop ^ ".after_error.key") (vals_of k <> []) ("key " ^ hex_of_bytes k ^ " yielded after the error is in no source")) akeys
 
 
 (* ---------- C07 / C08 / C17: sorter ---------- *)
